@@ -12,7 +12,8 @@ RULE = ("sub-commands {run (ok, failing, --check, -j2, --again), where (-p, -f),
         "(nocond/, nocond/deep/), cond-out/ and cond-out/a/; differential oracle against the invocation from the root on an identical "
         "snapshot: same exit status, same resulting cond-out digest and index rows, same output after resolving printed relative paths "
         "against the invoking directory; plus nearest-ancestor root discovery with a nested project and a cwd outside any project. "
-        "non-trivial = invocation from a directory other than the root; distinct = distinct (state, command, directory)")
+        "non-trivial = invocation from a directory other than the root; distinct = distinct (state, command, directory)"
+        ' COND files use //-rooted and relative include() with look-alike files in other directories; one state is a real git repository (two commits, a version recorded at the first) containing an unrelated nested repository, exercised with --this-commit / --at-least / where through the real git.')
 ASSUMPTIONS = [
     "path *arguments* (-o, archive file) are given as absolute paths: relative path arguments are by definition cwd-relative",
     "the explorer sub-command (a web server) is excluded",
@@ -110,7 +111,9 @@ def commands(root):
         ["where", "//a:x"], ["where", "//a:x", "-p"], ["where", "//a:never", "-f"], ["where", "//a:never"], ["where", "//a/b:t", "-p"],
         ["where", "//:top"],
         ["archive"], ["archive", "//a/b:g"], ["archive", "--latest"], ["archive", "-o", A], ["archive", "//a:x", "-l", "-o", A],
-        ["restore", os.path.join(root, "arch.tar.gz")],
+        ["restore", os.path.join(root, "arch.tar.gz")], ["restore", "REL:" + os.path.join(root, "arch.tar.gz")],
+        ["archive", "-o", "REL:" + os.path.join(root, "backups", "rel.tar.gz")], ["archive", "-o", "REL:" + os.path.join(root, "backups")],
+        ["archive", "//a:x", "-o", "REL:" + os.path.join(root, "nocond", "deep", "x.tar.gz")],
         ["gc"], ["gc", "-n"], ["gc", "-v"], ["gc", "-n", "-v"],
         ["clean", "-f"],
     ]
@@ -149,8 +152,12 @@ def observe(root, snap, cmd, d, clock_t):
     for x in DIRS:
         os.makedirs(os.path.join(root, x), exist_ok=True)
     cwd = os.path.join(root, d)
+    os.makedirs(os.path.join(root, "backups"), exist_ok=True)
+    # "REL:<abs>" = the same file named relative to the invoking directory
+    cmd = [("./" + os.path.relpath(c[4:], cwd)) if isinstance(c, str) and c.startswith("REL:") else c for c in cmd]
     r = hist.run(root, cmd, cwd=d, clock=driver.Clock(clock_t), behaviours=BEH, git=GIT_FOR_STATE.get("current"))
-    extra = sorted(f for f in os.listdir(root) if f.endswith(".tar.gz"))
+    extra = sorted(os.path.relpath(os.path.join(dp, f), root) for dp, _, fs in os.walk(root) for f in fs
+                   if f.endswith(".tar.gz") and not os.path.relpath(dp, root).startswith("cond-out"))
     return {
         "exit": r.exit, "exc": None if r.exc is None else "%s: %s" % (type(r.exc).__name__, r.exc),
         "out": normalize(r.out_text, cwd, root), "err": normalize(r.err_text, cwd, root),
